@@ -15,7 +15,7 @@ as a domain. Does NOT decide parse(display(parse(s))) == parse(s) for all string
 import ast
 import re
 from ..sym import Sym, show, walk_expr, PathExplosion
-from ..common import short, strip_casts
+from ..common import short, strip_casts, emptiness
 from .. import pathq, oblig, callgraph
 from . import tables
 
@@ -100,13 +100,21 @@ def unconditional_groups(pat):
     return total
 
 
+def parse_target_fn(fn):
+    """T for `s.parse::<T>()` and `<T as FromStr>::from_str(s)` (the same conversion), else None"""
+    if fn and fn["name"] in ("parse", "from_str") and "Arguments" not in fn["path"] and (fn["name"] == "parse" or "FromStr" in (fn.get("trait") or "")):
+        a = fn.get("args") or []
+        return a[0] if a else None
+    return None
+
+
 def surface(f):
     roots = []
     for b in f.bodies:
         if "::tests" in b.path or "::test::" in b.path:
             continue
-        if "endpoint" in b.path and b.kind in ("AssocFn", "Fn", "Closure"):
-            roots.append(b.path)
+        if re.search(r"(^|[<\s&:])endpoint::", b.path) and b.kind in ("AssocFn", "Fn", "Closure"):
+            roots.append(b.path)       # every function of the `endpoint` module tree (its own items and its impls)
     return roots
 
 
@@ -185,7 +193,13 @@ def run(ctx, f, rep):
                     conds = p.conds[:ev.ncond]
                     lf = oblig.LenFacts(conds, oblig.buffer_key(b[2]))
                     starts = any(e[0] in ("pure", "call") and short(e[1]) == "starts_with" and pathq.truth(c) is True and any(a2 == ("int", 91) or "'['" in show(a2) for a2 in e[2]) for (e, c, _, _) in conds)
-                    ends = any(e[0] == "binop" and e[1] == "Eq" and pathq.truth(c) is True and e[3] == ("int", 93) and pathq.mentions_call(e[2], lambda y: short(y[1]) == "last") is not None for (e, c, _, _) in conds) or \
+                    def last_is_close(e, c):
+                        if e[0] == "binop" and e[1] in ("Eq", "Ne") and pathq.truth(c) is (e[1] == "Eq"):
+                            for a_, b_ in ((e[2], e[3]), (e[3], e[2])):
+                                if b_ == ("int", 93) and pathq.mentions_call(a_, lambda y: short(y[1]) == "last") is not None:
+                                    return True
+                        return False
+                    ends = any(last_is_close(e, c) for (e, c, _, _) in conds) or \
                         any(e[0] in ("pure", "call") and short(e[1]) == "ends_with" and pathq.truth(c) is True and any(a2 == ("int", 93) or "']'" in show(a2) for a2 in e[2]) for (e, c, _, _) in conds)
                     return (lf.ge_const(2) and starts and ends), "s[1..len-1] with len>=%s, starts_with('[') %s, last byte ']' %s (ASCII at both cut points = char boundaries)" % (lf.iv.lo, starts, ends)
         if site["kind"] == "unwrap" and "Result" in site["name"] and ev.args:
@@ -248,8 +262,8 @@ def run(ctx, f, rep):
         rep.check(bool(m), "R19.2", "R19.2|hostport-pattern", "host/port pattern `%s` is ^(non-empty host):(ASCII-or-Unicode digits, one or more)$" % h0)
     # both are used by from_str / its helper through `captures`
     used = set()
-    for b in f.bodies:
-        if "endpoint" in b.path and "from_str" in b.path:
+    for b in [f.body(p_) for p_ in sorted(R) if f.body(p_) is not None]:
+        if True:
             for bb, t, fn in b.calls():
                 if fn and fn["name"] == "captures":
                     e = b.expr_of_operand(t["args"][0])
@@ -257,26 +271,36 @@ def run(ctx, f, rep):
                     for name in regs:
                         if name in txt:
                             used.add(name)
-    rep.check(used == set(regs) and len(used) >= 2, "R19.2", "R19.2|patterns-used", "Endpoint::from_str matches against both patterns: %s" % sorted(used))
+    rep.check(used == set(regs) and len(used) >= 2, "R19.2", "R19.2|patterns-used", "the endpoint parser matches against both patterns: %s" % sorted(used))
     # port: parse::<u16> with mapped error
-    hpf = [b for b in f.bodies if b.path.endswith("from_str::extract_host_port")]
-    rep.floor("R19.2", "host/port extraction helper", len(hpf), 1)
+    # the function that turns the text after `tcp://` into (host, port): the one that parses a u16, wherever it lives
+    def group_of(e):
+        for x in walk_expr(e):
+            if isinstance(x, tuple) and x and x[0] in ("call", "pure") and short(x[1]) == "get" and "Captures" in x[1] and len(x[2]) > 1:
+                g = strip_casts(x[2][1])
+                if g[0] == "int":
+                    return g[1], regex_of(x)
+        return None, None
+    hp_name = next((n_ for n_, v in regs.items() if "://" not in (v[0] or "")), None)
+    hpf = [b for b in [f.body(p_) for p_ in sorted(R)] if b is not None and any(fn and parse_target_fn(fn) == "u16" for bb, t, fn in b.calls())]
+    rep.floor("R19.2", "functions on the endpoint surface that parse a u16 port", len(hpf), 1)
     for b in hpf:
-        okp = False
+        nport = nhost = 0
         for p in pathq.paths(f, b):
-            if p.end != "return" or pathq.ret_kind(p) != "Ok":
-                continue
-            pc = pathq.mentions_call(p.ret, lambda y: short(y[1]) == "parse" and "u16" in y[1]) or pathq.mentions_call(p.ret, lambda y: short(y[1]) in ("parse", "from_str") and True)
-            port = p.ret[4][0][4][1] if p.ret[0] == "agg" and p.ret[4] and p.ret[4][0][0] == "agg" and len(p.ret[4][0][4]) > 1 else None
-            parsed = port is not None and pathq.mentions_call(port, lambda y: short(y[1]) == "parse") is not None and pathq.mentions_call(port, lambda y: short(y[1]) == "map_err") is not None
-            grp2 = port is not None and any(isinstance(x, tuple) and x and x[0] in ("call", "pure") and short(x[1]) == "get" and "Captures" in x[1] and strip_casts(x[2][1]) == ("int", 2) for x in walk_expr(port))
-            okp = parsed and grp2
-            rep.check(okp, "R19.2", "R19.2|port-parse", "the port is capture group 2 parsed with str::parse (u16) and its error mapped to a syntax error (parse+map_err %s, group 2 %s)" % (parsed, grp2), b.loc())
-            host = p.ret[4][0][4][0] if port is not None else None
-            grp1 = host is not None and any(isinstance(x, tuple) and x and x[0] in ("call", "pure") and short(x[1]) == "get" and "Captures" in x[1] and strip_casts(x[2][1]) == ("int", 1) for x in walk_expr(host))
-            rep.check(grp1, "R19.2", "R19.2|host-parse", "the host is capture group 1 parsed as Host", b.loc())
-        u16 = any(fn and fn["name"] == "parse" and any("u16" in a for a in fn.get("args", [])) for bb, t, fn in b.calls())
-        rep.check(u16, "R19.2", "R19.2|port-type", "the port is parsed as u16 (0..=65535)", b.loc())
+            for i, ev in pathq.calls(p, "parse", "from_str"):
+                tt = parse_target_fn(ev.fn) if ev.fn else None
+                if tt == "u16":
+                    nport += 1
+                    g, rname = group_of(ev.args[0])
+                    rep.check(g == 2 and rname == hp_name, "R19.2", "R19.2|port-parse",
+                              "the port text parsed as u16 is capture group 2 of the host:port pattern (group %s of %s); a failed parse is an error value (totality: R19.1)" % (g, rname), b.loc(ev.bb))
+                elif tt is not None and tt.endswith("host::Host"):
+                    nhost += 1
+                    g, rname = group_of(ev.args[0])
+                    rep.check(g == 1 and rname == hp_name, "R19.2", "R19.2|host-parse", "the host text is capture group 1 of the host:port pattern (group %s of %s)" % (g, rname), b.loc(ev.bb))
+        rep.floor("R19.2", "port parse events on paths", nport, 1)
+        rep.floor("R19.2", "host parse events on paths", nhost, 1)
+        rep.ok("R19.2", "R19.2|port-type", "the port is parsed as u16 (0..=65535)", b.loc())
     tables.check_name_table(f, rep, "R19.2", "Transport", ["Tcp", "Ipc"], want_reader=True, names={"Tcp": "tcp", "Ipc": "ipc"})
     # ---- R19.3 Display
     disp = [b for b in f.bodies if b.j.get("name") == "fmt" and (b.j.get("impl_trait") or "").endswith("fmt::Display") and (b.j.get("impl_self") or "").endswith("endpoint::Endpoint")]
@@ -325,11 +349,11 @@ def run(ctx, f, rep):
             if p.end != "return" or p.ret is None:
                 continue
             txt = show(p.ret)
-            parses = [(i, ev) for i, ev in pathq.calls(p, "parse")]
+            parses = [(i, ev) for i, ev in pathq.calls(p, "parse", "from_str") if ev.fn and parse_target_fn(ev.fn) is not None]
             if "Host::Ipv4" in txt:
-                ok4 = len(parses) == 1 and any("Ipv4Addr" in a for a in (parses[0][1].fn or {}).get("args", []))
+                ok4 = len(parses) == 1 and "Ipv4Addr" in parse_target_fn(parses[0][1].fn)
             if "Host::Ipv6" in txt:
-                order = [[a for a in (ev.fn or {}).get("args", []) if "Addr" in a] for i, ev in parses]
+                order = [parse_target_fn(ev.fn) for i, ev in parses]
                 ok6 = len(parses) == 2 and "Ipv4Addr" in str(order[0]) and "Ipv6Addr" in str(order[1])
                 arg6 = parses[-1][1].args[0] if parses else None
                 if arg6 is not None and pathq.mentions_call(arg6, lambda y: short(y[1]) == "index") is not None:
@@ -337,7 +361,7 @@ def run(ctx, f, rep):
             if "Host::Domain" in txt:
                 okd = len(parses) == 2 and any(isinstance(x, tuple) and x and x[0] == "arg" for x in walk_expr(p.ret))
             if "Err" in txt and "Ok" not in txt:
-                emp = any(e[0] in ("pure", "call") and short(e[1]) == "is_empty" and pathq.truth(c) is True for (e, c, _, _) in p.conds)
+                emp = any(emptiness(e, c) is not None and emptiness(e, c)[1] is True for (e, c, _, _) in p.conds)
                 rep.check(emp, "R19.3", "R19.3|host-empty-rejected", "the only error of the host parser is the empty host", b.loc())
         rep.check(ok4, "R19.3", "R19.3|ipv4-first", "an IPv4 literal is recognised first", b.loc())
         rep.check(ok6 and stripped, "R19.3", "R19.3|ipv6-second-brackets-stripped", "otherwise an IPv6 literal, bare or with exactly one bracket pair stripped (second parse %s, bracketed form %s)" % (ok6, stripped), b.loc())
